@@ -18,6 +18,8 @@ type Named struct {
 	Name  string `json:"name"`
 	Text  string `json:"text"`
 	Regex bool   `json:"regex,omitempty"`
+	// KeysOptional: the type is created with KeysAreOptionalByDefault
+	KeysOptional bool `json:"keys_optional,omitempty"`
 }
 
 // Spec is everything that defines a schema object.
@@ -146,6 +148,8 @@ func BuildSharing(sp Spec, shared map[string]jschema.Schema) (*js.Schema, Res, m
 		if !ok {
 			if t.Regex {
 				obj = regex.New(fileName(t.Name), t.Text)
+			} else if t.KeysOptional {
+				obj = js.New(fileName(t.Name), t.Text, js.KeysAreOptionalByDefault())
 			} else {
 				obj = js.New(fileName(t.Name), t.Text)
 			}
@@ -208,6 +212,17 @@ func Example(s *js.Schema) ([]byte, Res) {
 	r := Safe(func() error {
 		b, err := s.Example()
 		out = append([]byte(nil), b...)
+		// the caller owns what it gets: overwrite it and write into its spare capacity (what a caller
+		// who edits or extends the example does) - nothing the schema keeps may change through that
+		for i := range b {
+			b[i] = '#'
+		}
+		if cap(b) > len(b) {
+			rest := b[len(b):cap(b)]
+			for i := range rest {
+				rest[i] = '#'
+			}
+		}
 		return err
 	})
 	return out, r
